@@ -1,6 +1,6 @@
 import RagcModel.Lemmas.WriterGroups
 import RagcModel.Lemmas.Roundtrip
-import RagcModel.Props.C07
+import RagcModel.Lemmas.Range
 /-!
 Helper lemmas for `read_write` (C01/C02), part 2: pieces of a contig (`cutPieces` is a tiling),
 and the decoder's `decodeContig` on descriptors that address the stored pieces.
@@ -65,6 +65,18 @@ theorem tiles_later_ge (k : Nat) (c : List Nat) (ps : List (List Nat)) (ht : Til
     | succ j =>
       simp only [List.getElem_cons_succ]
       exact tilesFrom_later_ge k _ ps _ ht.2.2 _ (List.getElem_mem _)
+
+/-- `reconstruct_contig` returns `full` whenever no later segment is shorter than `k` (the statement
+of `Props.C07.reconstruct_eq_full`, proved here from `Lemmas/Range.lean` so that the writer lemmas
+do not import `Props/C07.lean` — which imports them, through `Lemmas/ReaderLink.lean`). -/
+theorem reconstruct_full (k : Nat) (segs : List Range.Seg)
+    (h : ∀ s ∈ segs.tail, k ≤ s.data.length) : reconstruct k segs = some (full k segs) := by
+  cases segs with
+  | nil => rfl
+  | cons s rest =>
+    simp only [List.tail_cons] at h
+    simp only [reconstruct, full]
+    exact reconstructTail_eq k rest s.data h
 
 theorem orient_eq (f : Bool) (d : List Nat) : Writer.orient f d = Ragc.Roundtrip.orient f d := rfl
 
@@ -145,7 +157,7 @@ theorem decodeContig_ok (k mm : Nat) (gds : Array GroupD) (sample name : List Na
       obtain ⟨d, hd, rfl⟩ := hs
       exact tilesFrom_later_ge k _ ps _ ht.2.2 d hd
   have : reconstruct k (pieces.map fun d => (⟨d.length, d⟩ : Range.Seg)) = some c := by
-    rw [Ragc.Props.C07.reconstruct_eq_full k _ hl2, Ragc.Roundtrip.full_eq_reassemble,
+    rw [reconstruct_full k _ hl2, Ragc.Roundtrip.full_eq_reassemble,
       reassemble_of_tiles k _ _ ht]
   simp only [Array.empty_append, List.toList_toArray, this]
 
